@@ -28,7 +28,7 @@ def run():
     s = summ[0]
     acc.evaluations += s["vectors"] * 2; acc.nontrivial += s["nontrivial"]
     acc.extra["replay"] = {k: s[k] for k in ("vectors", "nontrivial", "mismatches")}
-    acc.samples += [{"vector": x} for x in s.get("samples", [])[:2]]
+    acc.samples += [{"vector": x} for x in (s.get("samples") or [])[:2]]
     for x in recs:
         if x.get("kind") == "mismatch":
             v.fail("tokenize", x)
